@@ -103,6 +103,8 @@ def _css_chunk(vecs):
                             bad.append((what, dict(case, expected=None, actual=got.to_json())))
                     else:
                         it = v['items'][idx - 1]
+                        if it['nosemi']:
+                            continue          # declaration ended by "}": not covered by the select_item_css clause
                         exp = {'start': it['span'][0], 'end': it['span'][1], 'ranges': [tuple(r) for r in it['ranges']]}
                         g = None if got is None else {'start': got.start, 'end': got.end, 'ranges': [tuple(r) for r in got.ranges]}
                         if g != exp:
@@ -124,10 +126,11 @@ def run(out):
                                                          'XmlModes': {False}})),
            ('html-simulated', dict(constants={'MaxSeg': 14 if quick else 25, 'MaxDepth': 6, 'SegIdx': set(range(1, 23)), 'XmlModes': {False}},
                                    simulate=5 if quick else 150, depth=15 if quick else 26, seed=out.seed))]
-    base = dict(MaxDepth=3, Fillers={" ", "/* {;:} */", "NL"}, Loose=True, SemiInParens=False)
+    base = dict(MaxDepth=3, Fillers={" ", "/* {;:} */", "NL"}, Loose=True, SemiInParens=False, NoSemi=False)
     cin = [('css-exhaustive', dict(constants=dict(base, MaxSeg=3 if quick else 4, SelIdx={1, 2, 3, 5} if quick else {1, 2, 3}, ValIdx={1, 2, 3, 4}, NameIdx={1, 2}))),
            ('css-all-shapes', dict(constants=dict(base, MaxSeg=2 if quick else 3, SelIdx={1, 2, 3, 4, 5, 6}, ValIdx={1, 2, 3, 4, 5, 6}, NameIdx={1, 2, 3, 4}))),
            ('css-nesting', dict(constants=dict(base, MaxSeg=5 if quick else 6, SelIdx={1, 2}, ValIdx={4}, NameIdx={1}, Fillers={" "}, Loose=False))),
+           ('css-no-semicolon', dict(constants=dict(base, MaxSeg=4 if quick else 5, SelIdx={1, 2}, ValIdx={1, 4}, NameIdx={1}, Fillers={" "}, Loose=False, NoSemi=True))),
            ('css-semicolon-in-parentheses', dict(constants=dict(base, MaxSeg=3, SelIdx={1}, ValIdx={1}, NameIdx={1}, Fillers={" "}, Loose=False, SemiInParens=True))),
            ('css-simulated', dict(constants=dict(base, MaxSeg=12 if quick else 20, MaxDepth=4, SelIdx={1, 2, 3, 4, 5, 6}, ValIdx={1, 2, 3, 4, 5, 6}, NameIdx={1, 2, 3, 4}),
                                   simulate=1 if quick else 150, depth=13 if quick else 21, seed=out.seed))]
